@@ -488,7 +488,9 @@ func constVal(k *ssa.Const) Value {
 		case *types.Map:
 			return &MapVal{M: map[string]Value{}, IsNil: true}
 		case *types.Struct:
-			return NewTok("zero:"+k.Type().String(), "zero")
+			z := NewTok("zero:"+k.Type().String(), "zero")
+			z.Attr["zeroed"] = Bool(true) // every field reads as its zero value
+			return z
 		}
 		return Nil{}
 	}
@@ -535,6 +537,27 @@ type MapIter struct {
 }
 
 // ZeroOf builds the abstract zero value of a type.
+// arrayField: the address of a struct field of array type stands for the array held in that field.
+func (ip *Interp) arrayField(base Value) Value {
+	fr, ok := base.(*FieldRef)
+	if !ok {
+		return base
+	}
+	at, ok := fr.Typ.Underlying().(*types.Array)
+	if !ok {
+		return base
+	}
+	if a, ok := ip.LoadField(fr.Obj, fr.Name, fr.Typ).(*Array); ok {
+		return a
+	}
+	a := &Array{}
+	for i := int64(0); i < at.Len(); i++ {
+		a.Elems = append(a.Elems, &Opaque{fmt.Sprintf("%s.%s[%d]", fr.Obj.ID, fr.Name, i)})
+	}
+	fr.Obj.Fields[fr.Name] = a
+	return a
+}
+
 func (ip *Interp) ZeroOf(t types.Type) Value {
 	switch u := t.Underlying().(type) {
 	case *types.Basic:
@@ -808,6 +831,12 @@ func (ip *Interp) builtin(name string, args []Value, site ssa.CallInstruction) V
 		undecided("delete on %s", Show(args[0]))
 	case "print", "println":
 		return nil
+	case "ssa:wrapnilchk":
+		// the receiver check of a promoted / pointer-receiver wrapper method
+		if _, isNil := args[0].(Nil); isNil {
+			panic(&GoPanic{Msg: "value method called using nil pointer"})
+		}
+		return args[0]
 	}
 	undecided("builtin %s", name)
 	return nil
@@ -854,7 +883,7 @@ func (ip *Interp) step(f *frame, v ssa.Value) Value {
 		}
 		return ip.LoadField(obj, fld.Name(), fld.Type())
 	case *ssa.IndexAddr:
-		base := ip.eval(f, x.X)
+		base := ip.arrayField(ip.eval(f, x.X))
 		idx, ok := ip.eval(f, x.Index).(Int)
 		if !ok {
 			undecided("non-constant index in %s", f.fn)
@@ -984,7 +1013,7 @@ func (ip *Interp) step(f *frame, v ssa.Value) Value {
 	case *ssa.MakeMap:
 		return &MapVal{M: map[string]Value{}}
 	case *ssa.Slice:
-		base := ip.eval(f, x.X)
+		base := ip.arrayField(ip.eval(f, x.X))
 		lo, hi := 0, -1
 		if x.Low != nil {
 			i, ok := ip.eval(f, x.Low).(Int)
@@ -1266,6 +1295,10 @@ func Equal(a, b Value) (eq, known bool) {
 	case *MapVal:
 		if _, ok := b.(Nil); ok {
 			return x.IsNil, true
+		}
+		if y, ok := b.(*MapVal); ok && (x.IsNil || y.IsNil) {
+			// maps compare only with the nil literal: one side is the nil constant
+			return x.IsNil && y.IsNil, true
 		}
 	case *Closure, *ssa.Function:
 		if _, ok := b.(Nil); ok {
